@@ -39,6 +39,11 @@ pub fn index_of<T>(pop: &[T], r: &T) -> Option<usize> {
 /// (individuals may have fewer/more when `ragged`).
 pub fn gen_pop(rng: &mut SplitMix, max_n: u64, cases: usize, ragged: bool) -> PopRaw {
     let n = match rng.below(12) { 0 => 0, 1 => 1, 2 => 2, _ => 1 + rng.below(max_n) } as usize;
+    gen_pop_n(rng, n, cases, ragged)
+}
+
+/// a population of exactly `n` individuals
+pub fn gen_pop_n(rng: &mut SplitMix, n: usize, cases: usize, ragged: bool) -> PopRaw {
     let spread = *rng.pick(&[1u64, 2, 2, 3, 5, 100]);
     let dup = rng.chance(1, 4);
     let mut pop: PopRaw = Vec::new();
